@@ -205,11 +205,33 @@ Definition py_connected : bu_state :=
 Definition reset_seen (tcp : bool) (w : await_ans) : bool :=
   tcp && match w with AVal _ => true | _ => false end.
 
-Definition bringup_effs (tcp : bool) (w : await_ans) (v : N) : list bu_eff :=
-  [BNewHandler 4]
-  ++ (if tcp then [BWaitStartupReset (Some py_NETWORK_COORDINATOR_STARTUP_RESET_WAIT)] else [])
-  ++ (if reset_seen tcp w then [BRunning true] else reset_effs)
+Definition startup_effs (tcp : bool) (w : await_ans) (v : N) : list bu_eff :=
+  (if tcp then [BWaitStartupReset (Some py_NETWORK_COORDINATOR_STARTUP_RESET_WAIT)] else [])
+  ++ (if reset_seen tcp w then [BNewHandler 4; BRunning true] else reset_effs)
   ++ version_effs 4 4 v.
+
+Definition bringup_effs (tcp : bool) (w : await_ans) (v : N) : list bu_eff :=
+  [BNewHandler 4] ++ startup_effs tcp w v.
+
+(* startup_reset() from ANY stopped state (whatever version had been negotiated before, whatever handler object is
+   installed): the handler is the v4 one again before the first version query, whether the reset was requested by the
+   host or the NCP's own start-up reset was seen *)
+Lemma src_startup_reset_any zv h eff tcp w r v x : (tcp = true -> w <> AOtherError) ->
+  py_EZSP_startup_reset_k (zv, h, false, eff) tcp w (AVal r) (AVal v) (AVal x)
+    = (v, adopted v, true, eff ++ startup_effs tcp w v, ORet 0).
+Proof.
+  intros Hw.
+  assert (Hv : forall e, py_EZSP_version_k (4, 4, true, e) (AVal v) (AVal x)
+                         = (v, adopted v, true, e ++ version_effs 4 4 v, ORet 0)).
+  { intros e. rewrite src_version by discriminate.
+    destruct (v =? 4) eqn:E; [|reflexivity]. apply N.eqb_eq in E. subst. reflexivity. }
+  unfold py_EZSP_startup_reset_k, startup_effs, reset_seen.
+  change py_v4_EZSPv4_VERSION with 4.
+  destruct tcp; [destruct w as [wv| |]; [| |exfalso; apply Hw; reflexivity]|];
+    cbn [app negb andb]; try rewrite src_switch; try rewrite adopted_4;
+    cbn [py_EZSP_start_ezsp_k negb]; try rewrite src_reset; rewrite Hv;
+    rewrite <- ?app_assoc; reflexivity.
+Qed.
 
 Lemma src_bring_up tcp w r v x : (tcp = true -> w <> AOtherError) ->
   py_EZSP_startup_reset_k py_connected tcp w (AVal r) (AVal v) (AVal x)
@@ -219,22 +241,26 @@ Lemma src_bring_up tcp w r v x : (tcp = true -> w <> AOtherError) ->
                    snd (replay 0 (bringup_effs tcp w v))).
 Proof.
   intros Hw.
-  assert (Hv : forall e, py_EZSP_version_k (4, 4, true, e) (AVal v) (AVal x)
-                         = (v, adopted v, true, e ++ version_effs 4 4 v, ORet 0)).
-  { intros e. rewrite src_version by discriminate.
-    destruct (v =? 4) eqn:E; [|reflexivity]. apply N.eqb_eq in E. subst. reflexivity. }
   assert (Hm : bring_up v = ({| b_version := v; b_handler := adopted v; b_running := true;
                                 b_seq := fst (replay 0 (version_effs 4 4 v)) |},
                              snd (replay 0 (version_effs 4 4 v)))).
   { unfold bring_up. rewrite version_effs_model. cbn [fst snd b_version b_handler b_seq b_running do_reset b_init].
     destruct (v =? 4) eqn:E; [|reflexivity]. apply N.eqb_eq in E. subst. reflexivity. }
   split.
-  - unfold py_EZSP_startup_reset_k, py_connected, py_EZSP_connect_k, py_EZSP_init, bringup_effs, reset_seen.
-    change py_v4_EZSPv4_VERSION with 4.
-    destruct tcp; [destruct w as [wv| |]; [| |exfalso; apply Hw; reflexivity]|];
-      cbn [app negb andb py_EZSP_start_ezsp_k]; try rewrite src_reset; rewrite Hv; reflexivity.
-  - rewrite Hm. unfold bringup_effs, reset_seen, reset_effs.
+  - unfold py_connected, py_EZSP_connect_k, py_EZSP_init. change py_v4_EZSPv4_VERSION with 4.
+    cbn [app]. rewrite (src_startup_reset_any _ _ _ _ _ _ _ _ Hw). reflexivity.
+  - rewrite Hm. unfold bringup_effs, startup_effs, reset_seen, reset_effs.
     destruct tcp; [destruct w|]; reflexivity.
+Qed.
+
+(* the frames of a later start-up round: whatever was negotiated before, the first query is the legacy one *)
+Lemma src_startup_reset_frames tcp w v seq :
+  snd (replay seq (startup_effs tcp w v)) = snd (bring_up v).
+Proof.
+  assert (Hm : snd (bring_up v) = snd (replay 0 (version_effs 4 4 v))).
+  { unfold bring_up. rewrite version_effs_model. reflexivity. }
+  rewrite Hm. unfold startup_effs, reset_seen, reset_effs.
+  destruct tcp; [destruct w|]; reflexivity.
 Qed.
 
 (* the reset handshake of the bring-up fails (serial path, or a socket on which no start-up reset was seen): the
